@@ -3,7 +3,22 @@ package main
 import (
 	"fmt"
 	"strconv"
+	"strings"
 )
+
+// measureSpelling: --measure is documented and validated without regard to case; a fifth of the
+// command lines spell it in upper case or capitalised.
+func measureSpelling(m string, h uint64) string {
+	switch h % 10 {
+	case 1:
+		return strings.ToUpper(m)
+	case 2:
+		if m != "" {
+			return strings.ToUpper(m[:1]) + m[1:]
+		}
+	}
+	return m
+}
 
 // cliCase turns a pkg-level case into the equivalent `gofasta ...` command line run through the real
 // cobra tree (cmd/) and gfio inside the simulator. Files live in the in-memory FS under names with
@@ -105,7 +120,7 @@ func cliCase(c *Case) (*Case, bool) {
 			a = append(a, "--aggregate", "--threshold", strconv.FormatFloat(o.Threshold, 'g', -1, 64))
 		}
 	case "closest", "closestn":
-		a = []string{"closest", "--query", put("query.fasta", "query"), "--target", put("target.fasta", "target"), "-m", o.Measure, "-t", th}
+		a = []string{"closest", "--query", put("query.fasta", "query"), "--target", put("target.fasta", "target"), "-m", measureSpelling(o.Measure, caseHash(c)), "-t", th}
 		if c.Cmd == "closestn" {
 			if o.N > 0 {
 				a = append(a, "-n", strconv.Itoa(o.N))
